@@ -36,8 +36,8 @@ Qed.
 Lemma rfind_aux_skip p l i from best : from < i -> rfind_aux p l i from best = best.
 Proof.
   revert i best. induction l as [|x l IH]; intros i best H; cbn [rfind_aux].
-  - assert (E : (i <=? from) = false) by (apply N.leb_gt; lia). now rewrite E.
-  - assert (E : (i <=? from) = false) by (apply N.leb_gt; lia). rewrite E. cbn [andb]. apply IH. lia.
+  - assert (E : (i <=? from) = false) by (apply (proj2 (N.leb_gt i from)); lia). rewrite E. reflexivity.
+  - assert (E : (i <=? from) = false) by (apply (proj2 (N.leb_gt i from)); lia). rewrite E. cbn [andb]. apply IH. lia.
 Qed.
 
 Lemma rfind_aux_some p l i from best j :
@@ -47,7 +47,7 @@ Proof.
   revert i best. induction l as [|x l IH]; intros i best H; cbn [rfind_aux] in H.
   - destruct ((i <=? from) && p []) eqn:E; [|now left].
     apply andb_true_iff in E. destruct E as [E1 E2]. apply N.leb_le in E1. inversion H; subst j.
-    right. rewrite N.sub_diag, dropN_0, lenN_nil. splits; trivial; lia.
+    right. rewrite N.sub_diag, dropN_0. splits; trivial; lia.
   - apply IH in H. destruct H as [H|(H1 & H2 & H3 & H4)].
     + destruct ((i <=? from) && p (x :: l)) eqn:E; [|now left].
       apply andb_true_iff in E. destruct E as [E1 E2]. apply N.leb_le in E1. inversion H; subst j.
@@ -97,4 +97,108 @@ Proof.
   destruct l as [|a l]; [congruence|].
   assert (E : (lenN (a :: l) <=? 0) = false) by (apply N.leb_gt; rewrite lenN_cons; lia). rewrite E.
   rewrite (rfind_aux_first _ a l 0 None); [reflexivity| |lia]. apply prefixb_refl.
+Qed.
+
+(* ---------------------------------------------------------------- find_sub / replace / count *)
+
+Lemma find_sub_sound rm l k : find_sub rm l = Some k -> k + lenN rm <= lenN l /\ takeN (lenN rm) (dropN k l) = rm.
+Proof.
+  revert k. induction l as [|x l IH]; intros k H; cbn [find_sub] in H.
+  - destruct (prefixb rm []) eqn:E; [|discriminate]. inversion H; subst k.
+    rewrite dropN_0. split; [apply prefixb_len in E; lia|now apply prefixb_spec].
+  - destruct (prefixb rm (x :: l)) eqn:E.
+    + inversion H; subst k. rewrite dropN_0. split; [apply prefixb_len in E; lia|now apply prefixb_spec].
+    + destruct (find_sub rm l) as [j|] eqn:F; [|discriminate]. cbn [option_map] in H. inversion H; subst k.
+      destruct (IH j eq_refl) as [B T]. rewrite lenN_cons. split; [lia|].
+      rewrite <- N.add_1_r. now rewrite dropN_S.
+Qed.
+Lemma find_sub_short rm l : lenN l < lenN rm -> find_sub rm l = None.
+Proof.
+  intros H. destruct (find_sub rm l) as [k|] eqn:E; [|reflexivity].
+  apply find_sub_sound in E. lia.
+Qed.
+Lemma find_sub_self l : find_sub l l = Some 0.
+Proof. destruct l; cbn [find_sub]; [reflexivity|]. now rewrite prefixb_refl. Qed.
+
+Lemma split_at_match rm l k : find_sub rm l = Some k -> l = takeN k l ++ rm ++ dropN (k + lenN rm) l.
+Proof.
+  intros H. destruct (find_sub_sound _ _ _ H) as [B T].
+  rewrite <- (takeN_dropN k l) at 1. f_equal.
+  rewrite <- (takeN_dropN (lenN rm) (dropN k l)). rewrite T. f_equal.
+  rewrite dropN_dropN. f_equal. lia.
+Qed.
+
+Lemma replace_sub_fuel_facts f l rm wm max :
+  let r := replace_sub_fuel f l rm wm max in
+  snd r = N.min max (count_sub_fuel f rm l) /\
+  lenN (fst r) + lenN rm * snd r = lenN l + lenN wm * snd r /\
+  (snd r = 0 -> fst r = l) /\ (rm = wm -> fst r = l).
+Proof.
+  revert l max. induction f as [|f IH]; intros l max; cbn [replace_sub_fuel count_sub_fuel].
+  - cbn [fst snd]. splits; trivial; lia.
+  - destruct (0 <? max) eqn:E0.
+    2:{ apply N.ltb_ge in E0. cbn [fst snd]. splits; trivial; lia. }
+    apply N.ltb_lt in E0.
+    destruct (find_sub rm l) as [k|] eqn:F.
+    2:{ cbn [fst snd]. splits; trivial; lia. }
+    specialize (IH (dropN (k + lenN rm) l) (max - 1)). cbn zeta in IH.
+    destruct (replace_sub_fuel f (dropN (k + lenN rm) l) rm wm (max - 1)) as [t c]. cbn [fst snd] in *.
+    destruct IH as (I1 & I2 & I3 & I4).
+    destruct (find_sub_sound _ _ _ F) as [B _].
+    splits.
+    + lia.
+    + rewrite !lenN_app, lenN_takeN. rewrite lenN_dropN in I2. nia.
+    + lia.
+    + intros ->. rewrite (I4 eq_refl). symmetry. now apply split_at_match.
+Qed.
+
+Lemma l0_replace_sub_facts l rm wm max from :
+  let r := l0_replace_sub l rm wm max from in
+  snd r = N.min max (l0_count_sub l rm from) /\
+  lenN (fst r) + lenN rm * snd r = lenN l + lenN wm * snd r /\
+  (snd r = 0 -> fst r = l) /\ (rm = wm -> fst r = l).
+Proof.
+  unfold l0_replace_sub, l0_count_sub.
+  destruct (max =? 0) eqn:E1; cbn [orb].
+  { apply N.eqb_eq in E1. cbn [fst snd]. splits; trivial; lia. }
+  destruct (lenN l <=? from) eqn:E2; cbn [orb].
+  { apply N.leb_le in E2. cbn [fst snd]. assert (X : (from <? lenN l) = false) by (apply N.ltb_ge; lia).
+    rewrite X. destruct rm; splits; trivial; lia. }
+  apply N.leb_gt in E2. assert (X : (from <? lenN l) = true) by (apply N.ltb_lt; lia). rewrite X.
+  destruct (lenN rm =? 0) eqn:E3.
+  { apply N.eqb_eq in E3. rewrite (lenN_0 rm E3). cbn [fst snd]. splits; trivial; lia. }
+  apply N.eqb_neq in E3. destruct rm as [|a rm]; [rewrite lenN_nil in E3; congruence|].
+  pose proof (replace_sub_fuel_facts (S (length l)) (dropN from l) (a :: rm) wm max) as H. cbn zeta in H.
+  destruct (replace_sub_fuel (S (length l)) (dropN from l) (a :: rm) wm max) as [t c]. cbn [fst snd] in *.
+  destruct H as (H1 & H2 & H3 & H4). splits.
+  - exact H1.
+  - rewrite lenN_app, lenN_takeN. rewrite lenN_dropN in H2. lia.
+  - intros Hc. rewrite (H3 Hc). apply takeN_dropN.
+  - intros Hw. rewrite (H4 Hw). apply takeN_dropN.
+Qed.
+
+(* replacing the whole string by something *)
+Lemma l0_replace_sub_whole l wm max : l <> [] -> max <> 0 -> l0_replace_sub l l wm max 0 = (wm, 1).
+Proof.
+  intros Ne Mx. unfold l0_replace_sub.
+  assert (E1 : (max =? 0) = false) by now apply N.eqb_neq. rewrite E1.
+  assert (Lp : 0 < lenN l) by (destruct l; [congruence|rewrite lenN_cons; lia]).
+  assert (E2 : (lenN l <=? 0) = false) by (apply N.leb_gt; lia). rewrite E2.
+  assert (E3 : (lenN l =? 0) = false) by (apply N.eqb_neq; lia). rewrite E3. cbn [orb].
+  rewrite dropN_0, takeN_0. cbn [replace_sub_fuel].
+  assert (E4 : (0 <? max) = true) by (apply N.ltb_lt; lia). rewrite E4.
+  rewrite find_sub_self. rewrite N.add_0_l, (dropN_all (lenN l) l) by lia. rewrite takeN_0.
+  assert (R : forall f m, replace_sub_fuel f [] l wm m = ([], 0)).
+  { intros f m. destruct f; cbn [replace_sub_fuel]; [reflexivity|]. destruct (0 <? m); [|reflexivity].
+    rewrite find_sub_short; [reflexivity|]. rewrite lenN_nil. lia. }
+  rewrite R. cbn [app]. now rewrite app_nil_r.
+Qed.
+Lemma l0_replace_sub_whole_from l wm max from : 0 < from -> l0_replace_sub l l wm max from = (l, 0).
+Proof.
+  intros Hf. unfold l0_replace_sub.
+  destruct ((max =? 0) || (lenN l <=? from) || (lenN l =? 0)) eqn:E; [reflexivity|].
+  apply orb_false_iff in E. destruct E as [E _]. apply orb_false_iff in E. destruct E as [E1 E2].
+  apply N.leb_gt in E2.
+  cbn [replace_sub_fuel]. destruct (0 <? max); [|now rewrite takeN_dropN].
+  rewrite find_sub_short by (rewrite lenN_dropN; lia). now rewrite takeN_dropN.
 Qed.
